@@ -27,6 +27,13 @@ static int h_res_nquery(res_state s, const char *name, int class, int type, u_ch
         memcpy(ans, h_dns_answer, n);
     return h_dns_retlen;
 }
+/* the resolver entry point that applies the host's search list and domain: the question asked is then not the name given.
+   Answered like the plain query, but recorded as what it is */
+static int h_dns_searched;
+static int h_res_nsearch(res_state s, const char *name, int class, int type, u_char *ans, int anslen) {
+    h_dns_searched = 1;
+    return h_res_nquery(s, name, class, type, ans, anslen);
+}
 extern void h_transcript_note(const char *s);
 extern char *h_transcript_take(void);
 static const u_char *h_dns_base;
@@ -47,7 +54,9 @@ static int h_ns_name_uncompress(const u_char *base, const u_char *eom, const u_c
 #define res_ninit h_res_ninit
 #define res_nclose h_res_nclose
 #define res_nquery h_res_nquery
+#define res_nsearch h_res_nsearch
 #include "dns.c"
+#undef res_nsearch
 #undef ns_name_uncompress
 #undef res_ninit
 #undef res_nclose
@@ -55,6 +64,7 @@ static int h_ns_name_uncompress(const u_char *base, const u_char *eom, const u_c
 
 const char *h_dns_last_qname(void) { return h_dns_qname; }
 int h_dns_last_qtype(void) { return h_dns_qtype; }
+int h_dns_searched_take(void) { int r = h_dns_searched; h_dns_searched = 0; return r; }
 void h_dns_set_answer(const uint8_t *b, int len, int retlen) {
     (free)(h_dns_answer);
     h_dns_answer = (malloc)(len > 0 ? len : 1);
